@@ -23,6 +23,8 @@ func init() {
 		Rules: []RuleDef{
 			{ID: "R15a", Floor: 4, Doc: "first-visit gates in the selective traverser, WriteCarWithWalker and the teeing loader", Run: ruleR15a},
 			{ID: "R15b", Floor: 5, Doc: "size formulas of counting/teeing loaders agree; offset advance and callback metadata; Dump/Write emission", Run: ruleR15b},
+			{ID: "R15d", Floor: 4, Doc: "every CARv2 header written by the traversal writers follows the pragma / sits at the pragma offset (= R19a)", Run: func(c *Ctx, r *Report) { headerWritesFollowPragma(c, r, map[string]bool{modV2: true, pkgStore: true}) }},
+			{ID: "R15e", Floor: 1, Doc: "TraverseToFile fixes the header up with the same routine that wrote it (options applied identically)", Run: ruleR15e},
 			{ID: "R15c", Floor: 1, Doc: "size-mismatch guard", Run: ruleR15c},
 		},
 	})
@@ -498,4 +500,40 @@ func ruleR15c(c *Ctx, r *Report) {
 		}
 	}
 	r.Check(bad == "", key, c.Pos(fn.Pos()), "ErrSizeMismatch exactly on size != 0 && size != written", bad)
+}
+
+func ruleR15e(c *Ctx, r *Report) {
+	fn, err := c.Func(modV2, "", "TraverseToFile")
+	if err != nil {
+		r.InfraFail("%v", err)
+		return
+	}
+	key := "header-fixup@" + fnKey(fn)
+	wt := callsToFunc(fn, modV2, "traversalCar", "WriteTo")
+	wh := callsToFunc(fn, modV2, "traversalCar", "WriteV2Header")
+	bad := ""
+	switch {
+	case len(wt) != 1 || len(wh) != 1:
+		bad = "TraverseToFile does not re-run WriteV2Header after WriteTo: a header rebuilt by hand loses the data/index padding and no-index handling that the first pass applied"
+	case !wt[0].Block().Dominates(wh[0].Block()):
+		bad = "the header fix-up does not follow the write pass"
+	case len(headerWriteCalls(fn)) > 0:
+		bad = "TraverseToFile writes a header itself instead of through WriteV2Header"
+	}
+	if bad == "" {
+		rew := false
+		eachInstr(fn, func(in ssa.Instruction) {
+			if ci, ok := in.(*ssa.Call); ok && funcIs(calleeFunc(ci.Common()), "os", "File", "Seek") {
+				o, _ := constInt(ci.Call.Args[1])
+				w, _ := constInt(ci.Call.Args[2])
+				if o == 0 && w == 0 && instrReaches(wt[0], in) && instrReaches(in, wh[0]) {
+					rew = true
+				}
+			}
+		})
+		if !rew {
+			bad = "the file is not rewound to offset 0 between the write pass and the header fix-up"
+		}
+	}
+	r.Check(bad == "", key, c.Pos(fn.Pos()), "WriteTo; Seek(0,0); WriteV2Header", bad)
 }
